@@ -20,7 +20,7 @@ def run(ctx):
     idt = Ident(ix)
     ctx.rule("R10.1", "position stores/removes key on the acting (vamm, trader)", 9)
     ctx.rule("R10.2", "tmp-swap.trader origin at every store of the record", 4)
-    ctx.rule("R10.3", "Position.vamm / Position.trader assigned only from the requested key", 2)
+    ctx.rule("R10.3", "Position.vamm / Position.trader assigned only from the requested key", 1)
     ctx.rule("R10.4", "query entry points take Deps (read-only); no unsafe code in any workspace crate (fixture must fire)", 7)
     ctx.rule("R10.5", "DepositMargin: stored position's trader proven equal to info.sender before the store", 1)
 
@@ -180,6 +180,23 @@ def run(ctx):
             bad = "could not evaluate: %s" % e
         if bad:
             ctx.inst("R10.3", "construct:%s" % short_fn(f), False, f.where(), "a Position is constructed with a freshly chosen %s" % bad)
+        else:
+            # a record built with an explicitly given vamm / trader (not a copy of the record it was built from): the
+            # given values are the requested key - counted like the field assignments above
+            explicit = False
+            try:
+                for p in ix.ok_paths(f):
+                    for v in model.path_values(p):
+                        for x in sym.walk(v):
+                            if tag(x) == "agg" and payload(x)[0].endswith("margined_engine::Position"):
+                                for fld in ("vamm", "trader"):
+                                    o = ix.inline(sym.field(x, fld))
+                                    if not (tag(o) == "field" and payload(o)[0] == fld):
+                                        explicit = True
+            except Exception:
+                explicit = False
+            if explicit:
+                ctx.inst("R10.3", "construct:%s" % short_fn(f), True, f.where(), "a Position is constructed with vamm / trader taken from the key it was requested with")
 
     # ---------------------------------------------------------------- R10.4
     for c in ("margined_engine", "margined_vamm", "margined_insurance_fund", "margined_fee_pool", "margined_pricefeed"):
